@@ -20,8 +20,8 @@ NA = {
 }
 
 TEXT = {
- "C01": ("Bounded model checking of the compiled real code. (a) the legality filter try_as_legal_move is decided on every legal position with <= 2 (thorough: 3) opposing men per kind and every candidate move, against an independent rule reference; (b) the candidate generator is decided sound, duplicate-free and complete on families of kings + <= 3 men with symbolic squares, castling rights and en-passant target; a glue lemma (no bound) shows every legal move is a candidate. The six-line filter loop and perft are argued from reading, not decided.",
-         "DESIGN.md §4.1", "Assumes C09 (lookups = geometry, gated on the same tree). Reference rules in harness/common/rules.rs are validated natively against the real generator on perft walks at setup. Vec::push replaced by a non-reallocating equivalent that asserts capacity. Memory-safety (pointer) checks off for the generator harnesses while /repo has no `unsafe`.",
+ "C01": ("Bounded model checking of the compiled real code. (a) the legality filter try_as_legal_move is decided on every legal position with <= 2 (thorough: 3) opposing men per kind and every candidate move, against an independent rule reference; (b) the candidate generator is decided sound, duplicate-free and complete on families of kings + <= 3 men (quick: castling families with king and rooks at home, pawn families with concrete kings; thorough: all squares symbolic) with symbolic castling rights and en-passant target; a glue lemma (no bound) shows every legal move is a candidate. The six-line filter loop and perft are argued from reading, not decided.",
+         "DESIGN.md §4.1", "Assumes C09 (lookups = geometry; a cached failing C09 verdict for the tree makes this check inconclusive, the thorough tier runs C09 first). Reference rules in harness/common/rules.rs are validated natively against the real generator on perft walks at setup. Vec::push replaced by a non-reallocating equivalent that asserts capacity. Memory-safety (pointer) checks off for the generator harnesses while /repo has no `unsafe`.",
          "SAT-based bounded model checking (Kani/CBMC) of try_as_legal_move and compute_psuedo_legal_moves_into over symbolic positions, differential against an independent rule reference"),
  "C02": ("Bounded model checking with no bound on the position: twelve free bitboards, symbolic side, rights, en-passant target, clocks (< 2^32) and move; every field of State::by_performing_move's result is compared with an independent make-move reference, and the legal-position invariant is shown preserved by every legal move (induction step for sequences). MoveQuery::test is decided for every coordinate triple, and the resolver of State::by_performing_moves (exactly one match applies that move, none / several are rejected, input unchanged) on every adversarial candidate list of 0, 1 or 2 moves.",
          "DESIGN.md §4.2", "State::by_performing_moves is decided on arbitrary candidate lists of <= 2 moves substituted for the legal move generator, not on the real generator's list. Reference make-move in harness/common/rules.rs validated natively at setup.",
@@ -41,13 +41,13 @@ TEXT = {
  "C12": ("Bounded model checking of the real SAN parser on every spelling of the SAN grammar (<= 9 bytes), of MoveQuery::test against the component-wise specification on any move of any position, and of the coordinate-text writer (fixed 8-byte sink) with read-back.",
          "DESIGN.md §4.7", "Position-level uniqueness among the legal moves of a position needs the legal move list and is outside (argued from the matcher semantics). The `bestmove` line printed by uci.rs is outside.",
          "SAT-based bounded model checking (Kani/CBMC) of San::try_from_notation, MoveQuery::test and the Lan writer over symbolic text and moves"),
- "C13": ("Bounded model checking of the real evaluator (bit-precise floats) for negation symmetry and mirror symmetry on 3- to 5-man families, all squares, both perspectives, all ply <= 10^6; lemma that weighting commutes with negation.",
+ "C13": ("Bounded model checking of the real evaluator (bit-precise floats) for negation symmetry and mirror symmetry; quick: slices (bare kings with one king symbolic; kings concrete and one man of each kind on a symbolic square), thorough: 3- to 5-man families with all squares symbolic; both perspectives, all ply <= 10^6; lemma that weighting commutes with negation.",
          "DESIGN.md §4.8", "Assumes C09 (gated). Families where the mover has more than a king are restricted to positions where it is not in check and its king has a free safe square (a legal move then exists). compute_legal_moves inside the evaluator stubbed as for C05.",
          "SAT-based bounded model checking (Kani/CBMC) of Evaluator::evaluate twice per query (relational check) with IEEE-754 floats"),
  "C14": ("Bounded model checking for absence of panics (overflow, bounds, unwrap, slicing, char boundaries: the dev profile's checks) and termination (unwinding assertions): SAN parser on every valid UTF-8 string <= 6 bytes (thorough 8), Square::try_from <= 4 bytes, the FEN field parsers behind the regex gate on every input the gate admits up to 24 bytes, digit floods of 54 bytes (thorough: full alphabet to 48 bytes).",
          "DESIGN.md §4.9", "Parsers only: the UCI command loop and the regex gate itself are outside. FEN field inputs restricted to what the regex admits.",
          "SAT-based bounded model checking (Kani/CBMC) of the text parsers over all byte strings up to a length bound"),
- "C15": ("Bounded model checking of the real private table types through a forwarding hook: every history of <= 9 (thorough 10) inserts plus a lookup on one bucket (forces the replacement path), short histories on routed tables, and one insert/lookup step from an arbitrary bucket under the representation invariant (any history length on one bucket by induction).",
+ "C15": ("Bounded model checking of the real private table types through a forwarding hook: every history of <= 6 (thorough 9 and 10: forces the replacement path) inserts plus a lookup on one bucket, short histories on routed tables, and one insert/lookup step from an arbitrary bucket under the representation invariant (any history length on one bucket by induction).",
          "DESIGN.md §4.10", "Sequential semantics only: thread interleavings are outside (every table operation holds one RwLock for its whole duration — linearisation argued from reading). Routed histories are short because symbolic routing through heap-allocated tables exhausts memory.",
          "SAT-based bounded model checking (Kani/CBMC) of the transposition table over symbolic operation histories with ghost state"),
  "C20": ("Bounded model checking with no bound on the inputs: every constructor argument (colour, kind, origin, destination, capture, promotion, class, side) is symbolic; accessor, equality and serde-layer assertions hold for all of them.",
